@@ -3,7 +3,8 @@ import os, subprocess
 import vcommon as V
 
 VT = dict(STAGE=1, GVT=2, GVT_DRAIN=3, PROC=4, FORWARD=5, ROLLBACK=6, ANTI=7, UNDO=8, SILENT=9, CKPT=10, COMMIT=11,
-          FOSSIL=12, FINI_ENTRY=13, TERM_VOTE=14, MSG_ALLOC=15, MSG_FREE=16, STATS_GVT=17, EXTRACT=18, GVT_PHASE=19)
+          FOSSIL=12, FINI_ENTRY=13, TERM_VOTE=14, MSG_ALLOC=15, MSG_FREE=16, STATS_GVT=17, EXTRACT=18, GVT_PHASE=19,
+          NET_SEND=20, NET_RECV=21, NODE=22)
 VTN = {v: k for k, v in VT.items()}
 
 
